@@ -1,7 +1,10 @@
 (* The code before the repairs of fixes/C15-*.diff (Model/Counters.v, definitions ending in _v0):
    concrete histories on which the property fails.  These are the refutations the check found on the
    unrepaired tree, kept as lemmas. *)
-Require Import V.Base.MachineInt V.Generated.GenConsts V.Model.Counters V.Oracle.C15Oracle.
+Require Import V.Base.MachineInt.
+Require Import V.Generated.GenConsts.
+Require Import V.Model.Counters.
+Require Import V.Oracle.C15Oracle.
 Open Scope Z_scope.
 
 (* validate_counter_id accepted id = slot count: the accessor then runs into bounds_check *)
